@@ -240,6 +240,15 @@ func c04Run(t *testing.T, sub, keyName string, maxK int, nonrev bool, qb, tb tim
 							}
 						}
 					}
+					// the caller's own objects (index list, context, nonce) must come back unchanged from both paths
+					dText, cText, nText := fmt.Sprint(D), vfContext.String(), vfNonce.String()
+					defer func() {
+						if fmt.Sprint(D) != dText || vfContext.String() != cText || vfNonce.String() != nText {
+							r.Violate("C04|callers-arguments-changed", fmt.Sprintf("%v: index list %s -> %v, context/nonce changed: %v", caseID, dText, D, vfContext.String() != cText || vfNonce.String() != nText), caseID)
+							vfContext.SetString(cText, 10)
+							vfNonce.SetString(nText, 10)
+						}
+					}()
 					// path 1: CreateDisclosureProof (disclosure sessions only: it has no flag)
 					if !issig {
 						var p *ProofD
